@@ -553,6 +553,10 @@ func c05Path(cfg c05Cfg, st byte, wantTLS bool) ([]c05Step, bool) {
 	return nil, false
 }
 
+// kinds run under the two extra capability sets: those that show or change the capability list
+var c05CapsKinds = map[string]bool{"noop": true, "capability": true, "login": true, "authenticate": true, "starttls": true,
+	"unauthenticate": true, "select": true, "unselect": true, "logout": true, "unknown": true}
+
 // c05Distinct: does (kind, outcome) give the server an input different from (kind, ok)? An
 // outcome that arms no failure (no auxiliary / principal method, malformed = well-formed) is the
 // very same run; the model's table is proved to coincide there (Props/C05: step_same_input).
@@ -594,7 +598,7 @@ func c05Table() (cases []c05Case, skipped int) {
 						}
 						// the capability set only changes the capability lists: the two extra sets are
 						// run with succeeding backends only
-						if cfg.full && cfg.caps != 1 && oc != "ok" {
+						if cfg.full && cfg.caps != 1 && (oc != "ok" || !c05CapsKinds[k.name]) {
 							continue
 						}
 						h := append(append([]c05Step(nil), path...), c05Step{k.name, oc})
@@ -664,7 +668,7 @@ func genC05(e *emitter, tier string, seed uint64) {
 	for i := 0; i < skipped; i++ {
 		e.count("skipped:unreachable-state")
 	}
-	nHist := 500
+	nHist := 300
 	switch tier {
 	case "thorough":
 		nHist = 100000
